@@ -16,7 +16,7 @@
 (*   (m = "" finite value x with |x|*10^12 = hi*10^6+lo; "nan"; "inf").                                   *)
 (*                                                                                                      *)
 (* P-layer = the property as stated; where the statement is silent (a field that is missing in the      *)
-(*           file beyond "no depth at all", a record straddling a segment                              *)
+(*           file beyond "no depth at all", which depth min_depth uses for a pair, a record straddling an edge *)
 (*           edge, which side "one side of 0.5" is when nothing is asked) the clauses leave the freedom. *)
 (* A-layer = skgenome/tabio/vcfio.py, cnvlib/vary.py, cnvlib/cmdutil.py, skgenome/intersect.py,          *)
 (*           cnvlib/call.py case for case.  Known defects of the code are *named switches* below.        *)
@@ -298,29 +298,37 @@ SelOK(vcf, a, sel) ==
     ELSE sel.nid = "" /\ sel.sid = (IF sid # "" THEN sid ELSE S[1])
 
 (* does a record survive "the depth and somatic filters asked for" (and skip_reject): keep / drop / free      *)
-(* The depth filter looks at one sample: the paired normal when a pair is chosen, else the sample (germline     *)
-(* SNPs are judged on the normal).  A record in which the file gives that sample no depth at all (no DP, no AD   *)
-(* value, no INFO/DP) is below any min_depth > 0 -- whenever depth information exists in the file for that        *)
-(* sample; "exists" is decided on all parsed records (every record not skipped as rejected), before any filter:  *)
-(* a SOMATIC record that skip_somatic will drop still counts.  Only a file without any depth for the sample is   *)
-(* left unfiltered ("depth info not available").  Where DP is missing but AD has values the statement does not   *)
-(* say whether their sum is the depth: free.                                                                     *)
-FilterKey(sid, nid) == IF nid # "" THEN nid ELSE sid
+(* The statement does not say WHICH sample's depth min_depth applies to for a tumour/normal pair, so both        *)
+(* readings are admitted: a record is "keep" (must have its row) only if it passes under both, "drop" (must not  *)
+(* have one) only if it fails under both, and free otherwise -- e.g. when both depths are present and lie on      *)
+(* opposite sides of min_depth.  (The A-layer models the code's choice, the normal's: a change is MODEL-DRIFT.)   *)
+(* Under one reading, for the sample it names:                                                                    *)
+(*   - DP present: compared with min_depth (>= keeps);                                                            *)
+(*   - the file gives the sample no depth at all in this record (no DP, no AD value, no INFO/DP): the record is   *)
+(*     below any min_depth > 0 whenever depth information exists in the file for that sample; "exists" is        *)
+(*     decided on all parsed records (every record not skipped as rejected), before any filter -- a SOMATIC       *)
+(*     record that skip_somatic will drop still counts.  A file without any depth for the sample is left          *)
+(*     unfiltered ("depth info not available"): free;                                                             *)
+(*   - DP missing but AD has values: the statement does not say whether their sum is the depth: free.             *)
+FilterKey(sid, nid) == IF nid # "" THEN nid ELSE sid            \* the sample whose genotype makes a record germline-het
 NoDepthAtAll(rc, cl) == /\ ~(rc.fdp /\ cl.dp >= 0)
                         /\ ~(rc.fad /\ \E i \in Idx(cl.ad) : cl.ad[i] >= 0)
                         /\ rc.idp < 0
 DepthInfoInFile(vcf, key, skiprej) ==
-    \E k \in Idx(vcf.recs) : ~(skiprej /\ BadFilter(vcf.recs[k])) /\ PDepth(vcf.recs[k], CallOf(vcf, vcf.recs[k], key)) >= 0
-PFateI(vcf, rc, sid, nid, mind, skipsom, skiprej, info) ==       \* info = DepthInfoInFile(vcf, FilterKey(sid, nid), skiprej)
+    key # "" /\ \E k \in Idx(vcf.recs) : /\ ~(skiprej /\ BadFilter(vcf.recs[k]))
+                                         /\ PDepth(vcf.recs[k], CallOf(vcf, vcf.recs[k], key)) >= 0
+DepthFate(vcf, rc, key, mind, info) ==      \* one reading: the filter looks at sample `key`
+    LET cl == CallOf(vcf, rc, key)  d == PDepth(rc, cl) IN
+    IF d >= 0 THEN (IF d >= mind THEN "keep" ELSE "drop")
+    ELSE IF NoDepthAtAll(rc, cl) /\ info THEN "drop"
+    ELSE "free"
+(* infoS / infoN = DepthInfoInFile for the sample / the paired normal (computed once per record of the trace) *)
+PFateI(vcf, rc, sid, nid, mind, skipsom, skiprej, infoS, infoN) ==
     IF (skiprej /\ BadFilter(rc)) \/ (skipsom /\ rc.som) THEN "drop"
     ELSE IF mind <= 0 THEN "keep"
-    ELSE LET cl == CallOf(vcf, rc, FilterKey(sid, nid))
-             d == PDepth(rc, cl) IN
-         IF d >= 0 THEN (IF d >= mind THEN "keep" ELSE "drop")
-         ELSE IF NoDepthAtAll(rc, cl) /\ info THEN "drop"
-         ELSE "free"
-PFate(vcf, rc, sid, nid, mind, skipsom, skiprej) ==
-    PFateI(vcf, rc, sid, nid, mind, skipsom, skiprej, DepthInfoInFile(vcf, FilterKey(sid, nid), skiprej))
+    ELSE LET fs == DepthFate(vcf, rc, sid, mind, infoS)
+             fn == IF nid # "" THEN DepthFate(vcf, rc, nid, mind, infoN) ELSE fs IN
+         IF fs = fn THEN fs ELSE "free"
 
 KeyOK(vcf, row) == /\ row.k \in Idx(vcf.recs)
                    /\ LET rc == vcf.recs[row.k] IN
@@ -340,15 +348,15 @@ SelUsable(vcf, r) == r.err = "" /\ r.sel.called /\ r.sel.sid # "" /\ Has(vcf.sam
 (* ---- germline-heterozygous (load_het_snps): yes / no / free ---------------------------------------- *)
 (* zygosity in effect: the genotype, or -- when zygosity_freq is given, or (the code's documented Mutect2     *)
 (* work-around) every genotype of the paired normal is 0/0 -- thresholds z and 1-z on the allele frequency    *)
-EffZI(vcf, a, sid, nid, info) ==
+EffZI(vcf, a, sid, nid, infoS, infoN) ==
     IF a.zd > 0 THEN <<a.zn, a.zd>>
     ELSE IF nid = "" THEN <<0, 0>>                                         \* <<0,0>> = by genotype
     ELSE IF \A k \in Idx(vcf.recs) : PZyg(CallOf(vcf, vcf.recs[k], nid)) = 0 THEN <<1, 4>>
-    ELSE IF \E k \in Idx(vcf.recs) : /\ PFateI(vcf, vcf.recs[k], sid, nid, a.mind, TRUE, FALSE, info) = "keep"
+    ELSE IF \E k \in Idx(vcf.recs) : /\ PFateI(vcf, vcf.recs[k], sid, nid, a.mind, TRUE, FALSE, infoS, infoN) = "keep"
                                      /\ PZyg(CallOf(vcf, vcf.recs[k], nid)) \in {1, 2} THEN <<0, 0>>
     ELSE <<-1, 0>>                                                         \* cannot be told from the file
-PHetI(vcf, a, sid, nid, rc, ez, info) ==       \* ez = EffZI(..), info = DepthInfoInFile(..): computed once per record of the trace
-    LET fate == PFateI(vcf, rc, sid, nid, a.mind, TRUE, FALSE, info)
+PHetI(vcf, a, sid, nid, rc, ez, infoS, infoN) ==       \* ez = EffZI(..), infoS/N = DepthInfoInFile(..): computed once per record of the trace
+    LET fate == PFateI(vcf, rc, sid, nid, a.mind, TRUE, FALSE, infoS, infoN)
         key == CallOf(vcf, rc, FilterKey(sid, nid))
         byrule == IF ez = <<-1, 0>> THEN "free"
                   ELSE IF ez = <<0, 0>> THEN (IF PZyg(key) < 0 THEN "free" ELSE IF PZyg(key) = 1 THEN "yes" ELSE "no")
@@ -474,16 +482,18 @@ Holds(c, r) ==
       [] c = "rows_filters_keep" ->
             (* a record that passes every filter asked for has its row *)
             (SelUsable(vcf, r) /\ RowsFromRecords(vcf, r.rows)) =>
-                LET info == DepthInfoInFile(vcf, FilterKey(sel.sid, sel.nid), a.skiprej)
+                LET infoS == DepthInfoInFile(vcf, sel.sid, a.skiprej)
+                    infoN == DepthInfoInFile(vcf, sel.nid, a.skiprej)
                     have == {r.rows[j].k : j \in Idx(r.rows)} IN
                 \A k \in Idx(vcf.recs) :
-                    PFateI(vcf, vcf.recs[k], sel.sid, sel.nid, a.mind, a.skipsom, a.skiprej, info) = "keep" => k \in have
+                    PFateI(vcf, vcf.recs[k], sel.sid, sel.nid, a.mind, a.skipsom, a.skiprej, infoS, infoN) = "keep" => k \in have
       [] c = "rows_filters_drop" ->
             (* a record below min_depth, flagged SOMATIC under skip_somatic, or rejected under skip_reject has none *)
             (SelUsable(vcf, r) /\ RowsFromRecords(vcf, r.rows)) =>
-                LET info == DepthInfoInFile(vcf, FilterKey(sel.sid, sel.nid), a.skiprej) IN
+                LET infoS == DepthInfoInFile(vcf, sel.sid, a.skiprej)
+                    infoN == DepthInfoInFile(vcf, sel.nid, a.skiprej) IN
                 \A j \in Idx(r.rows) :
-                    PFateI(vcf, vcf.recs[r.rows[j].k], sel.sid, sel.nid, a.mind, a.skipsom, a.skiprej, info) # "drop"
+                    PFateI(vcf, vcf.recs[r.rows[j].k], sel.sid, sel.nid, a.mind, a.skipsom, a.skiprej, infoS, infoN) # "drop"
       [] c = "row_start_end" ->
             (* 0-based start (in the key) and a proper interval; a symbolic allele ends at INFO/END *)
             (r.err = "" /\ RowsFromRecords(vcf, r.rows)) =>
@@ -512,16 +522,18 @@ Holds(c, r) ==
       [] c = "hets_one_per_record" -> r.err = "" => RowsFromRecords(vcf, r.rows)
       [] c = "hets_keeps_every_het" ->
             (SelUsable(vcf, r) /\ RowsFromRecords(vcf, r.rows)) =>
-                LET info == DepthInfoInFile(vcf, FilterKey(sel.sid, sel.nid), FALSE)
-                    ez == EffZI(vcf, a, sel.sid, sel.nid, info)
+                LET infoS == DepthInfoInFile(vcf, sel.sid, FALSE)
+                    infoN == DepthInfoInFile(vcf, sel.nid, FALSE)
+                    ez == EffZI(vcf, a, sel.sid, sel.nid, infoS, infoN)
                     have == {r.rows[j].k : j \in Idx(r.rows)} IN
                 \A k \in Idx(vcf.recs) :
-                    PHetI(vcf, a, sel.sid, sel.nid, vcf.recs[k], ez, info) = "yes" => k \in have
+                    PHetI(vcf, a, sel.sid, sel.nid, vcf.recs[k], ez, infoS, infoN) = "yes" => k \in have
       [] c = "hets_keeps_only_hets" ->
             (SelUsable(vcf, r) /\ RowsFromRecords(vcf, r.rows)) =>
-                LET info == DepthInfoInFile(vcf, FilterKey(sel.sid, sel.nid), FALSE)
-                    ez == EffZI(vcf, a, sel.sid, sel.nid, info) IN
-                \A j \in Idx(r.rows) : PHetI(vcf, a, sel.sid, sel.nid, vcf.recs[r.rows[j].k], ez, info) # "no"
+                LET infoS == DepthInfoInFile(vcf, sel.sid, FALSE)
+                    infoN == DepthInfoInFile(vcf, sel.nid, FALSE)
+                    ez == EffZI(vcf, a, sel.sid, sel.nid, infoS, infoN) IN
+                \A j \in Idx(r.rows) : PHetI(vcf, a, sel.sid, sel.nid, vcf.recs[r.rows[j].k], ez, infoS, infoN) # "no"
       [] c = "hets_fields" ->
             (SelUsable(vcf, r) /\ RowsFromRecords(vcf, r.rows)) =>
                 \A j \in Idx(r.rows) : LET row == r.rows[j]  rc == vcf.recs[row.k] IN
